@@ -1844,7 +1844,7 @@ func (self *LockDB) AddExpried(lock *Lock) {
 	}
 
 	if !lock.isAof && lock.aofTime != 0xff {
-		if self.currentTime-lock.startTime >= int64(lock.aofTime) {
+		if self.currentTime-lock.startTime >= int64(lock.aofTime) || lock.longWaitIndex > 0 {
 			for i := uint8(0); i < lock.locked; i++ {
 				_ = lock.manager.PushLockAof(lock, 0)
 			}
